@@ -335,8 +335,8 @@ func GenTree(r *rand.Rand, idx int) *Tree {
 		pj := strings.HasSuffix(uniq[j], "build-zz") || uniq[j] == "lint-vet"
 		return pi && !pj
 	})
-	if len(uniq) > 5 {
-		uniq = uniq[:5]
+	if len(uniq) > 3 {
+		uniq = uniq[:3]
 	}
 	sort.Strings(uniq)
 	t.Calls = uniq
